@@ -10,9 +10,9 @@ for f in Drivers/C*.lean; do
   t="drv_$(basename "$f" .lean | tr 'A-Z' 'a-z')"
   lake build "$t" 2>&1 | tail -1
 done
-for f in RomeaProofs/Properties/C*.lean; do
+for f in RomeaProofs/Properties/C*.lean RomeaProofs/Bridge/C*.lean; do
   [ -f "$f" ] || continue
-  m="RomeaProofs.Properties.$(basename "$f" .lean)"
+  m="RomeaProofs.$(basename "$(dirname "$f")").$(basename "$f" .lean)"
   if ! lake build "$m" > /tmp/romea_setup_$$.log 2>&1; then
     echo "setup: $m does NOT build:"; grep -E "^error" /tmp/romea_setup_$$.log | head -5
   else
